@@ -341,6 +341,7 @@ func c09(c *Ctx) {
 		for _, pre := range []bool{false, true} {
 			k.RequirePreauth = pre
 			k.ExtraHints = pre && et%2 == 0
+			k.OmitStartTime = et%3 == 0 // 18 and 23: starttime absent from tickets and replies (OPTIONAL)
 			k.Tamper, k.ErrorCode = nil, 0
 			cl := newClient(et)
 			err := cl.Login()
@@ -354,6 +355,7 @@ func c09(c *Ctx) {
 		}
 	}
 	k.RequirePreauth = false
+	k.OmitStartTime = false
 	for ti, tm := range tampers {
 		if !tm.invalidates || tm.post != nil {
 			continue
